@@ -31,6 +31,10 @@ func (H) Generate(prop string, rng *rand.Rand, tier string) any {
 		return genC01(rng, tier)
 	case "C05", "C06":
 		return genWork(rng, tier, prop)
+	case "C07":
+		return genTasks(rng, tier)
+	case "C15":
+		return genMT(rng, tier)
 	}
 	panic("modsim: unknown property " + prop)
 }
@@ -43,6 +47,12 @@ func (H) Decode(prop string, raw json.RawMessage) (any, error) {
 	case "C05", "C06":
 		p := &WorkPlan{}
 		return p, json.Unmarshal(raw, p)
+	case "C07":
+		p := &TaskPlan{}
+		return p, json.Unmarshal(raw, p)
+	case "C15":
+		p := &MTPlan{}
+		return p, json.Unmarshal(raw, p)
 	}
 	return nil, fmt.Errorf("modsim: unknown property %s", prop)
 }
@@ -53,6 +63,10 @@ func (H) Execute(prop string, plan any, rc *simkit.RunCtx) {
 		execC01(plan.(*C01Plan), rc)
 	case "C05", "C06":
 		execWork(prop, plan.(*WorkPlan), rc)
+	case "C07":
+		execTasks(plan.(*TaskPlan), rc)
+	case "C15":
+		execMT(plan.(*MTPlan), rc)
 	}
 }
 
@@ -62,6 +76,10 @@ func (H) Check(prop string, plan any, rc *simkit.RunCtx) {
 		checkC01(plan.(*C01Plan), rc)
 	case "C05", "C06":
 		checkWork(prop, plan.(*WorkPlan), rc)
+	case "C07":
+		checkTasks(plan.(*TaskPlan), rc)
+	case "C15":
+		checkMT(plan.(*MTPlan), rc)
 	}
 }
 
@@ -71,6 +89,10 @@ func (H) Shrink(prop string, plan any) []any {
 		return shrinkC01(plan.(*C01Plan))
 	case "C05", "C06":
 		return shrinkWork(plan.(*WorkPlan))
+	case "C07":
+		return shrinkTasks(plan.(*TaskPlan))
+	case "C15":
+		return shrinkMT(plan.(*MTPlan))
 	}
 	return nil
 }
@@ -78,6 +100,12 @@ func (H) Shrink(prop string, plan any) []any {
 func (H) Tune(prop string, plan any, cfg *simrt.Config) {
 	if cfg.MaxSteps == 0 {
 		cfg.MaxSteps = 60000
+	}
+	if prop == "C07" || prop == "C15" {
+		cfg.MaxAdvIdx = 2
+		if cfg.PAdvance > 0.02 {
+			cfg.PAdvance = 0.02
+		}
 	}
 	if prop == "C05" || prop == "C06" {
 		cfg.MaxAdvIdx = 2 // promptness is measured in simulated time: only small clock steps while goroutines are runnable
